@@ -24,7 +24,7 @@ pub enum BandSpec {
     TornHead,
     Band {
         /// Indices into the universe, strictly increasing in reference order.
-        entries: Vec<u8>,
+        entries: Vec<u16>,
         /// Sizes of consecutive hunks (sum <= entries.len(); the rest form a last hunk).
         /// A zero size is an empty `[]` hunk.
         hunks: Vec<u8>,
@@ -47,7 +47,7 @@ pub struct Case {
     pub excludes: Vec<Vec<String>>,
 }
 
-fn split_hunks(entries: &[u8], sizes: &[u8]) -> Vec<Vec<u8>> {
+fn split_hunks(entries: &[u16], sizes: &[u8]) -> Vec<Vec<u16>> {
     let mut out = vec![];
     let mut i = 0usize;
     for s in sizes {
@@ -88,7 +88,7 @@ fn write_case(root: &Path, case: &Case) {
                         .map(|ei| {
                             let p = &case.universe[*ei as usize];
                             // mtime encodes (band, entry) so provenance is visible in the listing
-                            let mtime = id as i64 * 1000 + *ei as i64;
+                            let mtime = id as i64 * 10_000 + *ei as i64;
                             if *ei % 3 == 0 {
                                 format::entry_json(p, "Dir", mtime, &[], None)
                             } else if *ei % 3 == 1 {
@@ -182,7 +182,7 @@ fn check_case(case: &Case, cx: &mut Cx) -> Result<(u64, u64), Failure> {
                 };
                 fail!(
                     format!("C08/listing-differs-from-stitching-rule/{class}"),
-                    "band {n} subtree {subtree:?} exclude {excl:?}: got {gp:?}, the stitching rule gives {wp:?} (path@mtime, mtime = band*1000+entry)"
+                    "band {n} subtree {subtree:?} exclude {excl:?}: got {gp:?}, the stitching rule gives {wp:?} (path@mtime, mtime = band*10000+entry)"
                 );
             }
             for (g, w) in got.iter().zip(want.iter()) {
@@ -200,6 +200,10 @@ fn run(case: &Case, cx: &mut Cx) -> CaseResult {
     cx.label_if(nontrivial > 0, "straddling-resume");
     cx.label_if(case.stride > 1, "gaps-in-ids");
     cx.label_if(case.universe.len() >= 100, "wide:100+paths");
+    cx.label_if(
+        case.bands.iter().any(|b| matches!(b, BandSpec::Band { hunks, .. } if hunks.len() >= 256)),
+        "band-of-256+hunks",
+    );
     cx.label_if(case.bands.iter().any(|b| matches!(b, BandSpec::NoHead { .. })), "headless-dir");
     cx.label_if(case.bands.iter().any(|b| matches!(b, BandSpec::TornHead)), "torn-head");
     cx.label_if(
@@ -221,7 +225,7 @@ fn band_states(universe_len: usize) -> Vec<BandSpec> {
         out.push(BandSpec::Band { entries: vec![], hunks: vec![], missing_tail_hunks: 0, closed });
     }
     for mask in 1u32..(1 << universe_len) {
-        let entries: Vec<u8> = (0..universe_len as u8).filter(|i| mask & (1 << i) != 0).collect();
+        let entries: Vec<u16> = (0..universe_len as u16).filter(|i| mask & (1 << i) != 0).collect();
         for split in 0..entries.len() {
             // split == 0: one hunk; otherwise two hunks, the first of size `split`
             let hunks = if split == 0 { vec![] } else { vec![split as u8] };
@@ -355,15 +359,30 @@ fn band_strategy() -> BoxedStrategy<(u8, Vec<bool>, Vec<u8>, u8, bool)> {
 /// hunks), interrupted bands cut at a generated point: resume points that fall anywhere in
 /// a long older index.
 fn wide_strategy() -> BoxedStrategy<Case> {
+    wide_strategy_of(100, 250, false)
+}
+
+/// Very wide cases: 600-1600 paths in hunks of mostly two to four entries, i.e. bands of
+/// 200-700 hunks in which a resume point usually falls strictly inside a hunk.
+fn very_wide_strategy() -> BoxedStrategy<Case> {
+    wide_strategy_of(600, 1600, true)
+}
+
+fn wide_strategy_of(lo: usize, hi: usize, multi: bool) -> BoxedStrategy<Case> {
+    let sizes = if multi {
+        prop_oneof![1 => Just(1u8), 6 => 2u8..5, 1 => Just(0u8)].boxed()
+    } else {
+        prop_oneof![6 => Just(1u8), 2 => 2u8..4, 1 => Just(0u8)].boxed()
+    };
     let band = (
         0u8..10,
         prop::collection::vec(prop::bool::weighted(0.85), 256),
-        prop::collection::vec(prop_oneof![6 => Just(1u8), 2 => 2u8..4, 1 => Just(0u8)], 60..250),
+        prop::collection::vec(sizes, if multi { 300..800 } else { 60..250 }),
         any::<u8>(),
         any::<bool>(),
     );
-    (100usize..250, 2usize..8, prop::collection::vec(band, 2..=4), prop::collection::vec(any::<u16>(), 0..2))
-        .prop_map(|(n, dirs, bands, subs)| {
+    (lo..hi, 2usize..8, prop::collection::vec(band, if multi { 2..=3 } else { 2..=4 }), prop::collection::vec(any::<u16>(), 0..2))
+        .prop_map(move |(n, dirs, bands, subs)| {
             let mut universe: Vec<String> = vec!["/".to_string()];
             for d in 0..dirs {
                 universe.push(format!("/d{d}"));
@@ -376,7 +395,9 @@ fn wide_strategy() -> BoxedStrategy<Case> {
                 }
             }
             universe.sort_by(|a, b| ref_cmp(a, b));
-            universe.truncate(255);
+            if !multi {
+                universe.truncate(255);
+            }
             let len = universe.len();
             let bands = bands
                 .into_iter()
@@ -386,7 +407,7 @@ fn wide_strategy() -> BoxedStrategy<Case> {
                     _ => {
                         // an interrupted band holds a prefix of what it would have held
                         let limit = if closed { len } else { (cut as usize * (len + 1)) >> 8 };
-                        let entries: Vec<u8> = (0..len as u8).filter(|i| (*i as usize) < limit && mask[*i as usize]).collect();
+                        let entries: Vec<u16> = (0..len as u16).filter(|i| (*i as usize) < limit && mask[*i as usize % mask.len()]).collect();
                         // no run of empty hunks after the last entry
                         let mut total = 0usize;
                         let hunks: Vec<u8> = hunks
@@ -411,7 +432,7 @@ fn wide_strategy() -> BoxedStrategy<Case> {
 }
 
 fn strategy(_tier: Tier) -> BoxedStrategy<Case> {
-    prop_oneof![9 => small_strategy(), 1 => wide_strategy()].boxed()
+    prop_oneof![90 => small_strategy(), 10 => wide_strategy(), 1 => very_wide_strategy()].boxed()
 }
 
 fn small_strategy() -> BoxedStrategy<Case> {
@@ -434,7 +455,7 @@ fn small_strategy() -> BoxedStrategy<Case> {
                     1 if mask[0] && mask[1] => BandSpec::TornHead,
                     1 => BandSpec::NoHead { tail: closed },
                     _ => BandSpec::Band {
-                        entries: (0..universe.len() as u8).filter(|i| mask[*i as usize % mask.len()]).collect(),
+                        entries: (0..universe.len() as u16).filter(|i| mask[*i as usize % mask.len()]).collect(),
                         hunks,
                         missing_tail_hunks: missing,
                         closed,
